@@ -46,9 +46,20 @@ type World struct {
 	updPlanned map[string]uint64
 	pendingVals []pendingVal
 	hsConsumer string // consumer the current handshake step concerns
+	ObsOn bool
+	Obs   []ObsRec
 }
 
 type pendingVal struct{ name, op, key string }
+
+// ObsRec is what a node exposes to consensus for one block: the application hash and a digest of the whole
+// FinalizeBlock response (transaction results, events, validator updates, consensus parameter updates).
+type ObsRec struct {
+	Chain string
+	H     int64
+	App   string
+	Res   string
+}
 
 // registerCreatedValidators keeps the names given (at tx-building time) to validators that now exist and
 // forgets those whose creation failed.
@@ -85,6 +96,11 @@ type Link struct {
 	PXfer, CXfer       string // transfer channel ends
 }
 
+var (
+	recordingDefault = true
+	obsDefault       = false
+)
+
 func NewWorld(t testing.TB, cfg Config) *World {
 	genesis := time.Date(2030, 1, 1, 0, 0, 0, 0, time.UTC)
 	w := &World{T: t, Cfg: cfg, N: newNames(), Genesis: genesis, Now: genesis,
@@ -97,6 +113,7 @@ func NewWorld(t testing.TB, cfg Config) *World {
 	w.net = &Network{w: w, pkts: map[string][]*Packet{}, acks: map[string][]*Packet{}}
 	ccvtypes.VerifTraceFn = w.onTrace
 	ccvtypes.VerifFailFn = w.onFail
+	w.ObsOn = obsDefault
 	w.P = w.newProvider(t, cfg)
 	return w
 }
@@ -357,6 +374,9 @@ func (r *Recorder) skipSnap(c *Chain, point string) bool { return false }
 
 // Start begins a new trace: the first line is an "Init" event carrying the run constants and the provider state.
 func (r *Recorder) Start() {
+	if !recordingDefault {
+		return
+	}
 	r.on = true
 	r.lastSnap = map[string]string{}
 	w := r.w
